@@ -31,6 +31,9 @@ func NewWorld(initialCapacity ...int) *World {
 
 // NewEntity creates a new [Entity] without any components.
 func (w *World) NewEntity() Entity {
+	if traceEnabled {
+		defer w.traceBegin("New", Entity{}, nil, nil, nil, nil, 1).end()
+	}
 	w.checkLocked()
 
 	entity, _ := w.storage.createEntity(0)
@@ -84,6 +87,9 @@ func (w *World) NewEntities(count int, fn func(entity Entity)) {
 // Note that pointer-like fields in components (incl. slices and maps)
 // are copied shallow. I.e. they will point to the same address as the original.
 func (w *World) CopyEntity(e Entity) Entity {
+	if traceEnabled {
+		defer w.traceBegin("Copy", e, nil, nil, nil, nil, 1).end()
+	}
 	w.checkLocked()
 
 	if !w.Alive(e) {
@@ -126,6 +132,9 @@ func (w *World) Alive(entity Entity) bool {
 
 // RemoveEntity removes the given entity from the world.
 func (w *World) RemoveEntity(entity Entity) {
+	if traceEnabled {
+		defer w.traceBegin("Kill", entity, nil, nil, nil, nil, 1).end()
+	}
 	w.checkLocked()
 	w.storage.RemoveEntity(entity)
 }
@@ -133,6 +142,9 @@ func (w *World) RemoveEntity(entity Entity) {
 // RemoveEntities removes all entities matching the given batch filter,
 // running the given function on each. The function can be nil.
 func (w *World) RemoveEntities(batch Batch, fn func(entity Entity)) {
+	if traceEnabled {
+		defer w.traceBegin("KillBatch", Entity{}, nil, nil, nil, &batch, 0).end()
+	}
 	w.checkLocked()
 
 	hasEntityObs := w.storage.observers.HasObservers(OnRemoveEntity)
@@ -268,6 +280,9 @@ func (w *World) Event(tp EventType) Event {
 // Can be used to run systematic simulations without the need to re-allocate memory for each run.
 // Accelerates re-populating the world by a factor of 2-3.
 func (w *World) Reset() {
+	if traceEnabled {
+		defer w.traceBegin("Reset", Entity{}, nil, nil, nil, nil, 0).end()
+	}
 	w.checkLocked()
 
 	w.storage.Reset()
@@ -351,6 +366,9 @@ func (w *World) Stats() *stats.World {
 // moved between archetypes when adding or removing components.
 // However, it might be useful in memory-constrained environments e.g. after initialization.
 func (w *World) Shrink(stopAfter ...time.Duration) bool {
+	if traceEnabled {
+		defer w.traceBegin("Shrink", Entity{}, nil, nil, nil, nil, 0).end()
+	}
 	if len(stopAfter) > 1 {
 		panic("no more than one time limit stopAfter can be given")
 	}
